@@ -76,6 +76,19 @@ def _walk(e):
     return walk(e)
 
 
+def untry(e):
+    """`Some(x)?` / `Ok(x)?` spelled through an inlined helper: ((branch(Some(x)) as Continue).0) is x."""
+    if not isinstance(e, tuple):
+        return e
+    if e[0] == "fld" and len(e) == 3 and e[2] in ("0", 0) and isinstance(e[1], tuple) and e[1][0] == "down" and e[1][2] == "Continue":
+        c = e[1][1]
+        if isinstance(c, tuple) and c[0] == "call" and c[1].endswith("Try>::branch") and len(c[2]) == 1:
+            a = c[2][0]
+            if isinstance(a, tuple) and a[0] == "agg" and a[2].split("::")[-1] in ("Some", "Ok") and len(a[3]) == 1:
+                return untry(a[3][0])
+    return tuple(untry(x) if isinstance(x, tuple) else x for x in e)
+
+
 def is_snorm(e):
     """byte * 2 / 255 - 1 (signed normalised byte) in any of its exactly equal spellings."""
     if not (isinstance(e, tuple) and e[0] == "bin" and e[1] == "Sub" and _f32(e[3]) == 1.0):
@@ -109,12 +122,12 @@ def tangent_decode(rb):
         if not (isinstance(leaf, tuple) and leaf[0] == "agg" and leaf[2].endswith("Option::Some") and leaf[3] and isinstance(leaf[3][0], tuple) and leaf[3][0][0] == "agg" and len(leaf[3][0][3]) == 4):
             continue
         n += 1
-        comps = leaf[3][0][3]
+        comps = [untry(c) for c in leaf[3][0][3]]
         xyz_ok = xyz_ok and all(is_snorm(c) for c in comps[:3])
         sign = _f32(comps[3])
         cond = None
         for c in p.conds:
-            e, (op, val) = c[0], c[1]
+            e, (op, val) = untry(c[0]), c[1]
             v0 = val[0] if isinstance(val, tuple) and val else val
             if isinstance(e, tuple) and e[0] == "bin" and e[1] in ("Eq", "Ge", "Ne", "Lt"):
                 truth = (op == "eq" and v0 != 0) or (op == "ne" and v0 == 0)
